@@ -2477,7 +2477,17 @@ impl<F: ConfigField + Default> ConfigField for Option<F> {
     }
 
     fn set(&mut self, key: &str, value: &str) -> Result<()> {
-        self.get_or_insert_with(Default::default).set(key, value)
+        match self {
+            Some(inner) => inner.set(key, value),
+            None => {
+                // Only become `Some` if the value is accepted, so that a
+                // rejected value leaves an unset option unset.
+                let mut inner = F::default();
+                inner.set(key, value)?;
+                *self = Some(inner);
+                Ok(())
+            }
+        }
     }
 
     fn reset(&mut self, key: &str) -> Result<()> {
